@@ -46,6 +46,10 @@ CHOICES = st.lists(st.integers(0, 11), min_size=1, max_size=8)
 FIELD_NAMES = ['a', 'b', 'c', 'd']
 
 
+# the spec classes whose constructor takes `transform=`
+XFORM_KINDS = ('list', 'tuple', 'vtuple', 'dict', 'dict0', 'object', 'pobject')
+
+
 def _identity(x):
   return x
 
@@ -55,7 +59,7 @@ def _mods(base, allow_frozen=True):
     d = dict(d)
     if noneable:
       d['noneable'] = True
-    if xform and d.get('t') not in ('union', 'any'):
+    if xform and d.get('t') in XFORM_KINDS:
       d['xform'] = True      # a user transform (the identity): validation then goes through the transform-less twin
     if default is not None:
       d['default'] = default
@@ -323,7 +327,7 @@ def to_spec(d, _validated=False):
       s = T.Any()
     else:
       raise core.InvalidCase(d)
-    if d.get('xform'):
+    if d.get('xform') and t in XFORM_KINDS:
       s._transform = _identity      # pylint: disable=protected-access  (what the constructor argument `transform=` stores)
     if d.get('noneable'):
       s = s.noneable()
